@@ -1,12 +1,12 @@
 /* C11 (E-BITS, IEEE-exact): covariance / column variance on data riding on a large common offset (x = HP_OFFSET + k/1024,
- * k symbolic in 0..15 sixteenths): the diagonal is non-negative and every entry agrees with the centred two-pass definition to 1e-9 -
+ * k symbolic in 0..15 thousandths): the diagonal is non-negative and every entry agrees with the centred two-pass definition to 1e-9 -
  * the floating-point side of "equals its textbook definition (to rounding)" and "positive semi-definite" that exact-arithmetic
  * reasoning cannot see (a hoisted-centring formula sum x*y - n*mean_x*mean_y loses every digit here). */
 #include "lsv.h"
 #include "matrix.h"
 void harness(void){
   matrix *m; NewMatrix(&m,HP_M,HP_P);
-  for(size_t i=0;i<HP_M;i++)for(size_t j=0;j<HP_P;j++){ size_t k=in_size(0,15); m->data[i][j]=(double)(HP_OFFSET)+(double)k/16.0; }
+  for(size_t i=0;i<HP_M;i++)for(size_t j=0;j<HP_P;j++){ size_t k=in_size(0,15); m->data[i][j]=(double)(HP_OFFSET)+(double)k/1000.0;    /* thousandths: not dyadic, so squares and sums do round */ }
   matrix *c; initMatrix(&c);
   MatrixCovariance(m,c);
   for(size_t a=0;a<HP_P;a++){
